@@ -359,6 +359,19 @@ fn gen_faults(r: &mut Rng, scenario: &str, horizon: u64, n_voters: u32, masked: 
                 70..=84 => Fault::SlowLink { at, dur: r.range(500, 4000), src: NodeSel::Leader, dst: sel_follower(r), extra_ms: r.range(50, 600) },
                 _ => Fault::BreakStreams { at, a: NodeSel::Leader, b: sel_follower(r) },
             },
+            "membership" => match roll {
+                // after a promotion the leader must need the new configuration's majority: cut it off alone or with
+                // one old follower while the promoted node and the rest stay together
+                0..=24 => Fault::Partition { at, dur: r.range(500, 5000), side: vec![NodeSel::Leader] },
+                25..=44 => Fault::Partition { at, dur: r.range(500, 5000), side: vec![NodeSel::Leader, sel_follower(r)] },
+                45..=54 => Fault::Partition { at, dur: r.range(200, 4000), side: vec![sel_any(r)] },
+                55..=66 => Fault::Crash { at, node: sel_any(r), power_loss: r.chance(1, 2), down_ms: r.range(50, 3000) },
+                67..=74 => Fault::Graceful { at, node: sel_any(r), down_ms: r.range(50, 2000) },
+                75..=78 => Fault::FullRestart { at, down_ms: r.range(50, 1000) },
+                79..=86 => Fault::ApplyStall { at, node: sel_any(r), dur: r.range(50, 1500) },
+                87..=92 => Fault::SlowLink { at, dur: r.range(200, 3000), src: sel_any(r), dst: sel_any(r), extra_ms: r.range(20, 800) },
+                _ => Fault::BreakStreams { at, a: NodeSel::Leader, b: sel_follower(r) },
+            },
             "routing" => match roll {
                 // a leader cut off from the majority keeps believing it leads until its lease / verification fails
                 0..=39 => Fault::Partition { at, dur: r.range(500, 5000), side: vec![NodeSel::Leader] },
